@@ -37,24 +37,47 @@ a pure injection callback folded into `sem`, C16), every `merge` (m = 2, 4: copy
   sets state rows of `s[0]` to `merge old s[1][p]`; `cycle_zero_slot`;
 * (7) `cycle_iter` — `s[0]` after `cycle(k)` = `N^k s[0]`, `N = Cycle.nextState` (defined by THE solution: (7') `nextState_unique`),
   port rows constant, `s[1]` = capture of the labelling of `N^(k-1) s[0]`; memory left by earlier cycles is irrelevant;
-* (7s) `nextState_is_spec` — `N` is the INDEPENDENT specification `KV.nextStateFrom` (ports keep, a state element takes the value of
+* (7s) `nextState_is_spec` — ONE step, 2-valued njit path `semL2n`, `strip = false`, copy merge, hypotheses `forksOKB`, `linesDrivenB`
+  (generalised by (11)): `N` is the INDEPENDENT specification `KV.nextStateFrom` (ports keep, a state element takes the value of
   its data line under any labelling the specification's `consistentB` accepts, an open data pin takes constant 0), `nextState_eq_from`
   (the driver's `eval2` next state is that function of the `evalAll` labelling);
+* (11) **k cycles against the INDEPENDENT specification** (audit-2 finding 7; `KV.nextStateFrom` / `nextStateFromM`, Model/Net.lean,
+  Proofs/CycleSpec.lean — no op rows, memory or index tables): `accepted_labelling_exists` (for every assignment the specification's
+  check `consistentB` accepts the labelling the model computes — so an accepted labelling EXISTS; it is unique on the lines,
+  `consistentB_unique`), `cycle_iter_spec` (2-valued), `cycle_iter_spec_m4`, `cycle_iter_spec_m8`, general form `cycle_iter_spec_any`
+  (any value domain, any merge, `strip_forks` on or off): `s[0]` after `cycle(k)` = the k-fold iterate of
+  `a ↦ nextStateFrom net z (v a) a` for ANY labelling family `v` accepted at the iterates `0 … k-1`; `cycle_spec_run` +
+  `spec_step_total_functional` (relation form without a family: the specification's step is total and functional, the simulator's
+  `s[0]` rows follow it, every sequence that follows it ends in `s[0]` after `cycle(k)`); `cycle_iter_iterState` (= the driver's
+  executable `KV.iterState`, what the oracle compares the real `s[0]` with, under the flag `KV.iterAccepted` = `consistentB` on
+  `evalAll` at EVERY iterate — returned by the driver's `eval2`, lanes with the flag off are skipped by the harness);
+  `cycle_iter_spec_lanes` (lane k of the bit-parallel loop); `cycle_memory_is_spec` (the loop ON MEMORY for the `SimOps` model tables).
+  HYPOTHESES, all explicit and decidable: `Net.wfB`, `orderOKB`, `forksOKB`, `linesDrivenB Gen.kindPrefixes` (every line is written by
+  a row: known cell kinds; evaluated per case — `netspeccert`, tags `cycle-netspec-hyp:*`, `oracle-netspec-hyp:*`), for
+  `strip = true` also `capDriversB`; `z` is the content of the constant slot (0 on every real memory: `cycle_zero_slot`).
+  The general form takes the op semantics through `heq` (agrees with the documented LUT semantics on known codes: theorems
+  `semL2n/2p/2c/4/8_eq_spec` for the five generated dispatchers) and `SemSpec` (`semSpec2/4/8`).
 * (7'') `cycle_array_form` — the driver's array form = the model;
 * (8) `cycle_on_memory`, (8') `cycle_end_to_end` — the loop ON MEMORY (`s_to_c` writes rows `c_locs[ppi_offset+p]`, real op rows on
   memory, `c_to_s` reads rows `c_locs[ppo_offset+p]`; any allocator, `c_reuse`, `strip_forks`) = the signal-level loop, under the
-  accepted map certificate (C08) and the decidable table condition `zeroCapB`;
+  accepted map certificate (C08) and the decidable table condition `zeroCapB`; (8z) `zeroCap_simopsMap` — `zeroCapB` is a THEOREM for
+  the tables the `SimOps` model builds, (8e) `cycle_on_memory_all_circuits` — (8) for ALL circuits without per-instance certificate
+  (`strip_forks` on or off, any capacity vector, with or without `c_reuse`; hypotheses `wfB`, `orderOKB`, `readsDrivenB`, `forksOKB`
+  when stripping);
 * (9) `cycle_lanes` — lane k of the bit-parallel loop = the one-lane loop on lane k, any batch size, any k;
 * (10) `cycle_strip_irrelevant` — `s` after `cycle(k)` does not depend on `strip_forks` (hypotheses `forksOKB`, `capDriversB`).
 CORRESPONDENCE (harness/c01.py `cycle_tie`, every generated sequential case, m = 2, 4, 8, {strip_forks} x {c_reuse}, both
 `c_prop` code paths, k = 0..5, random `s[0]`, `s[1]` in all planes, all lanes): `pippi/poppo/ppio_s_locs` and
 `pippi/poppo_c_locs` of the real `LogicSim` = the model's tables; `s[0]`, `s[1]` after the real `cycle(k)` = `cycleKA k`;
 certificates `zeroCapB` (real `c_locs`), `capDriversB`, `forksOKB`, `wfB`, `orderOKB` (real order) per case.
-Still ORACLE / per-instance only: that the real map passes the certificate (C08, per instance);
+Still ORACLE / correspondence only: that the REAL tables equal the model tables `simopsMap` (exact correspondence, C08) — for real
+tables the certificate and `zeroCapB` are evaluated per case; the m = 4 / m = 8 `cycle(k)` of the real code against a specification
+(`cycle_iter_spec_m4/_m8` are theorems about the model; the real 4-/8-valued loop is tied to the model by `cycle_tie` only, the
+k-cycle ORACLE `eval2` is 2-valued);
 (a state element without output pin list has no (P)PI slot: `pippi_s_locs` skips it since fix 7a998c8 — before, `s_to_c` stored
 through `c_locs = -1` into the last memory row; the model follows the repaired table, `Cycle.ppiUsedS`, so (8) needs no side condition on it);
-the bit-plane packing of `s` is outside the model (one value per lane and position = the first mdim planes; the planes
->= mdim that `s_ppo_to_ppi` copies along and the plane-1 copy `c_to_s` makes for m = 2 are neither modelled nor compared). -/
+the bit-plane packing of `s` is outside THIS model (one value per lane and position = the first mdim planes); it is modelled and
+tied byte by byte, all planes, in C15Sim (`datapath_tie`). -/
 namespace KV.C01
 open KV KV.Sig
 
